@@ -111,6 +111,7 @@ type ListOpts struct {
 	StopOnError bool
 	WantOutput  bool
 	ViaInfos    bool // ConnlistFromResourceInfos(fsscanner...) instead of ConnlistFromDirPath
+	Mute        bool // the analyzer's own WithMuteErrsAndWarns option (off by default, as in `list`)
 }
 
 type ListRes struct {
@@ -163,6 +164,15 @@ func splitKey(k string) (string, string) {
 
 // RunList runs the list analysis in-process, recovers panics, normalises the result and evaluates the
 // C05 validity predicate on the returned values (violations are collected in WF, never raised here).
+// nopLogger keeps the runs quiet without the analyzer's own mute option: `list` as users run it does not mute, and
+// what the mute option changes besides printing is the tool's business (diff uses it internally).
+type nopLogger struct{}
+
+func (nopLogger) Debugf(string, ...interface{})        {}
+func (nopLogger) Infof(string, ...interface{})         {}
+func (nopLogger) Warnf(string, ...interface{})         {}
+func (nopLogger) Errorf(error, string, ...interface{}) {}
+
 func RunList(dir string, o ListOpts) (res *ListRes) {
 	res = &ListRes{Conns: map[string]*CSet{}}
 	defer func() {
@@ -170,7 +180,10 @@ func RunList(dir string, o ListOpts) (res *ListRes) {
 			res.Panic = r
 		}
 	}()
-	opts := []connlist.ConnlistAnalyzerOption{connlist.WithMuteErrsAndWarns()}
+	opts := []connlist.ConnlistAnalyzerOption{connlist.WithLogger(nopLogger{})}
+	if o.Mute {
+		opts = append(opts, connlist.WithMuteErrsAndWarns())
+	}
 	if o.Exposure {
 		opts = append(opts, connlist.WithExposureAnalysis())
 	}
@@ -381,9 +394,20 @@ func RunDiff(d1, d2 string, o DiffOpts) (res *DiffRes) {
 
 // listRaw / diffRaw run the analysis without recovering (C12 wants the panic and its stack).
 func listRaw(dir string, exposure bool, format string) {
+	listRawFocus(dir, exposure, format, "", false)
+}
+
+// listRawFocus: one list invocation with the given options; the report is rendered (and dropped).
+func listRawFocus(dir string, exposure bool, format, focus string, stopOnErr bool) {
 	opts := []connlist.ConnlistAnalyzerOption{connlist.WithMuteErrsAndWarns(), connlist.WithOutputFormat(format)}
 	if exposure {
 		opts = append(opts, connlist.WithExposureAnalysis())
+	}
+	if focus != "" {
+		opts = append(opts, connlist.WithFocusWorkload(focus))
+	}
+	if stopOnErr {
+		opts = append(opts, connlist.WithStopOnError())
 	}
 	ca := connlist.NewConnlistAnalyzer(opts...)
 	conns, _, err := ca.ConnlistFromDirPath(dir)
@@ -393,7 +417,7 @@ func listRaw(dir string, exposure bool, format string) {
 }
 
 func diffRaw(d1, d2 string) {
-	for _, f := range []string{"txt", "dot"} {
+	for _, f := range []string{"txt", "dot", "csv", "md"} {
 		da := diff.NewDiffAnalyzer(diff.WithOutputFormat(f))
 		cd, err := da.ConnDiffFromDirPaths(d1, d2)
 		if err == nil && cd != nil {
